@@ -7,10 +7,8 @@ import (
 	"fmt"
 	"os"
 	"runtime"
-	"runtime/pprof"
 	"strconv"
 	"strings"
-	"time"
 
 	"github.com/zclconf/go-cty/cty"
 	ctyjson "github.com/zclconf/go-cty/cty/json"
@@ -29,7 +27,7 @@ func (Driver) ID() string { return "C17" }
 const (
 	quickRegular, quickRisk       = 16, 4
 	thoroughRegular, thoroughRisk = 64, 16
-	quickTotal, thoroughTotal     = 200_000, 6_000_000
+	quickTotal, thoroughTotal     = 200_000, 4_000_000
 )
 
 func (Driver) Info() core.Info {
@@ -434,17 +432,6 @@ func risky(b []byte) bool {
 // ---------------------------------------------------------------------------
 
 func (Driver) Run(c *core.Ctx) {
-	if pf := os.Getenv("C17_PROF"); pf != "" {
-		if f, err := os.Create(pf); err == nil {
-			pprof.StartCPUProfile(f)
-			defer pprof.StopCPUProfile()
-		}
-		defer func() {
-			for k, v := range profTimes {
-				fmt.Fprintf(os.Stderr, "TIME %-30s %v\n", k, v)
-			}
-		}()
-	}
 	// 16 workers run side by side: one thread for the cases, one for the collector
 	runtime.GOMAXPROCS(2)
 	nb, nr := split(c)
@@ -586,6 +573,56 @@ func depthOfMP(b []byte) int {
 	return mx
 }
 
+// maxExponentDigits returns the largest number of digits (leading zeros not
+// counted) that follow an 'e'/'E' (and an optional sign) anywhere in b: the
+// size of the largest decimal exponent a number token or number string can carry.
+func maxExponentDigits(b []byte) int {
+	mx := 0
+	for i := 0; i+1 < len(b); i++ {
+		if b[i] != 'e' && b[i] != 'E' {
+			continue
+		}
+		j := i + 1
+		if j < len(b) && (b[j] == '+' || b[j] == '-') {
+			j++
+		}
+		for j < len(b) && b[j] == '0' {
+			j++
+		}
+		n := 0
+		for j < len(b) && b[j] >= '0' && b[j] <= '9' {
+			n++
+			j++
+		}
+		if n > mx {
+			mx = n
+		}
+	}
+	return mx
+}
+
+func hasSetOrDynamic(t cty.Type) bool {
+	switch {
+	case t == cty.DynamicPseudoType, t.IsSetType():
+		return true
+	case t.IsListType(), t.IsMapType():
+		return hasSetOrDynamic(t.ElementType())
+	case t.IsTupleType():
+		for _, et := range t.TupleElementTypes() {
+			if hasSetOrDynamic(et) {
+				return true
+			}
+		}
+	case t.IsObjectType():
+		for _, at := range t.AttributeTypes() {
+			if hasSetOrDynamic(at) {
+				return true
+			}
+		}
+	}
+	return false
+}
+
 // memClass is the input class of a memory violation.
 func memClass(site string, in []byte) string {
 	if strings.HasPrefix(site, "msgpack.") {
@@ -597,25 +634,21 @@ func memClass(site string, in []byte) string {
 				return "refinement-length-bound"
 			}
 		}
-		if len(in) > 0 && (bytesCount(in, 0x91)+bytesCount(in, 0x81)+bytesCount(in, 0x92) > len(in)/16) {
+		if maxExponentDigits(in) >= 6 {
+			return "number-exponent>=100000"
+		}
+		if depthOfMP(in) >= 256 {
 			return "deep-nesting"
 		}
 		return ""
+	}
+	if maxExponentDigits(in) >= 6 {
+		return "number-exponent>=100000"
 	}
 	if depthOfJSON(in) >= 256 {
 		return "deep-nesting"
 	}
 	return ""
-}
-
-func bytesCount(b []byte, c byte) int {
-	n := 0
-	for _, x := range b {
-		if x == c {
-			n++
-		}
-	}
-	return n
 }
 
 // call runs one decoder call under the panic guard and the memory monitor.
@@ -815,7 +848,7 @@ func (e *executor) checkValue(site string, tc *tcase, tname string, target cty.T
 		}
 		if bad != "" {
 			c.Count("clause:not-well-formed:" + site)
-			c.Violate(site, "result is not well-formed", wfClass(bad), wit(), fmt.Sprintf("%s; result %s", bad, clipStr(fmt.Sprintf("%#v", v), 1200)))
+			c.Violate(site, "result is not well-formed", wfClass(bad), wit(), fmt.Sprintf("%s; result %s", bad, showValue(tc, v)))
 		} else {
 			c.Count("clause:well-formed-ok:" + site)
 		}
@@ -825,7 +858,7 @@ func (e *executor) checkValue(site string, tc *tcase, tname string, target cty.T
 			if d != "" || !m.Conforms(got, want) {
 				c.Count("clause:nonconforming:" + site)
 				c.Violate(site, "result type does not conform to the requested type", d, wit(),
-					fmt.Sprintf("result type %s; requested %s; result %s", typeText(v.Type()), typeText(target), clipStr(fmt.Sprintf("%#v", v), 1200)))
+					fmt.Sprintf("result type %s; requested %s; result %s", typeText(v.Type()), typeText(target), showValue(tc, v)))
 			} else {
 				c.Count("clause:conforms-ok:" + site + ":" + tname)
 			}
@@ -870,6 +903,15 @@ func (e *executor) checkType(site string, tc *tcase, t cty.Type, allowOptional b
 	}
 }
 
+// showValue prints a result for a violation report (not for inputs whose
+// numbers would take the library minutes to print).
+func showValue(tc *tcase, v cty.Value) string {
+	if maxExponentDigits(tc.input) >= 6 || len(tc.input) > 4096 {
+		return "(not printed)"
+	}
+	return clipStr(fmt.Sprintf("%#v", v), 1200)
+}
+
 func clipStr(s string, n int) string {
 	if len(s) <= n {
 		return s
@@ -877,25 +919,18 @@ func clipStr(s string, n int) string {
 	return s[:n] + fmt.Sprintf("...(+%d)", len(s)-n)
 }
 
-var profTimes = map[string]time.Duration{}
-
 func (e *executor) runCase(idx int64, tc *tcase, fam int) {
 	c := e.c
-	if os.Getenv("C17_PROF") != "" {
-		t0 := time.Now()
-		defer func() {
-			d := time.Since(t0)
-			profTimes[tc.class+":"+tc.format] += d
-			if d > 500*time.Millisecond {
-				fmt.Fprintf(os.Stderr, "SLOW %v case %d %s\n", d, idx, clipStr(tc.describe(), 300))
-			}
-		}()
-	}
 	c.Begin(idx, tc.describe)
 	c.Count("class:" + tc.class + ":" + tc.format)
 	c.Count(fmt.Sprintf("mutations:%d", len(tc.muts)))
 	accepted := 0
 	in := tc.input
+	// A number with a decimal exponent of millions placed in a set is written out
+	// digit by digit when the set hashes it (listed finding): seconds and hundreds
+	// of megabytes at 7 digits, effectively a hang at 9. The corpus holds bounded
+	// witnesses; elsewhere such inputs are kept away from set and dynamic targets.
+	hugeExp := tc.class != "corpus" && maxExponentDigits(in) >= 7
 
 	if fam&famJSON != 0 {
 		deepBudget := tc.class != "deep" || int64(tc.depth)*int64(len(in)) <= jsonDeepBudget(!c.Quick())
@@ -903,6 +938,10 @@ func (e *executor) runCase(idx int64, tc *tcase, fam int) {
 			ty := ty
 			var v cty.Value
 			var err error
+			if hugeExp && hasSetOrDynamic(ty) {
+				c.Count("skipped:exponent-of-7+-digits-into-a-set-or-dynamic-target")
+				continue
+			}
 			if !e.call("json.Unmarshal", tc, typeText(ty), func() { v, err = ctyjson.Unmarshal(in, ty) }) {
 				continue
 			}
@@ -967,6 +1006,10 @@ func (e *executor) runCase(idx int64, tc *tcase, fam int) {
 			ty := ty
 			var v cty.Value
 			var err error
+			if hugeExp && hasSetOrDynamic(ty) {
+				c.Count("skipped:exponent-of-7+-digits-into-a-set-or-dynamic-target")
+				continue
+			}
 			if !e.call("msgpack.Unmarshal", tc, typeText(ty), func() { v, err = ctymp.Unmarshal(in, ty) }) {
 				continue
 			}
@@ -1008,7 +1051,7 @@ func (e *executor) runCase(idx int64, tc *tcase, fam int) {
 		tn = append(tn, typeText(t))
 	}
 	c.DistinctHash(core.HashString(fmt.Sprintf("%d|%x|%s", fam, in, strings.Join(tn, "|"))), tc.hostile())
-	if c.WantSample() && tc.hostile() && accepted > 0 && len(in) < 200 {
+	if c.WantSample() && (tc.class == "mutated" || tc.class == "wrapper") && accepted > 0 && len(in) < 200 {
 		c.Sample(map[string]any{"class": tc.class, "format": tc.format, "input_hex": hex.EncodeToString(in), "mutations": tc.muts, "targets": tn, "decoders_accepting": accepted})
 	}
 }
